@@ -87,7 +87,8 @@ def _verdicts(agg):
     return ({r.run_id: dataclasses.asdict(r) for r in rr}, {(l.run_space_launch_id, l.run_space_attempt): dataclasses.asdict(l) for l in ll})
 
 
-TS_VARIANTS = {"increasing": [1, 2, 3, 4, 5, 6, 7, 8], "all-equal": [3, 3, 3, 3, 3, 3, 3, 3], "ties": [1, 1, 2, 2, 2, 3, 3, 3]}
+TS_VARIANTS = {"increasing": [1, 2, 3, 4, 5, 6, 7, 8], "all-equal": [3, 3, 3, 3, 3, 3, 3, 3], "ties": [1, 1, 2, 2, 2, 3, 3, 3],
+               "ser-end-tie": [1, 2, 3, 4, 5, 5, 6, 7]}  # the last SER finishes in the same tick as pipeline_end is written
 
 
 def _make_o1(param):
@@ -333,11 +334,12 @@ def obligations(tier: str) -> List[Ob]:
         params += [(i, j, None) for (i, j) in itertools.combinations(range(5), 2)]
     else:
         params = [(i, j, v, False) for (i, j) in pairs for v in ("increasing", "ties")]
+        params += [(i, j, "ser-end-tie", False) for (i, j) in pairs if 4 in (i, j) or 3 in (i, j)]
     # a second pool: two attempts of one launch (8 records as well)
     params += [(i, j, "increasing", False, "2attempts") for (i, j) in pairs]
     return [
         Ob("C13.O1", _make_o1, _replay_o1, params=params, budget=900, per_path=60,
-           bound="two pools of 8 records (a launch with two runs; two attempts of one launch with one run each): 28 unordered pairs of pool records x timestamp layouts (quick: increasing, ties; thorough: + all equal) x pre-state = symbolic subset of the other 6 records x symbolic SER status of node 1 (thorough: both nodes) over {succeeded,error,running} x 3 poll flags (finalize_all before / between, independently for both orders): selectors symbolic, leaves executed natively; thorough adds the 10 pairs among the first 5 records with SYMBOLIC non-decreasing timestamps in 1..3 (traced). Full state (pure ingestion) + verdicts compared; finalize twice",
+           bound="two pools of 8 records (a launch with two runs; two attempts of one launch with one run each): 28 unordered pairs of pool records x timestamp layouts (quick: increasing, ties, last SER and pipeline_end in one tick for the pairs involving them; thorough: all four layouts) x pre-state = symbolic subset of the other 6 records x symbolic SER status of node 1 (thorough: both nodes) over {succeeded,error,running} x 3 poll flags (finalize_all before / between, independently for both orders): selectors symbolic, leaves executed natively; thorough adds the 10 pairs among the first 5 records with SYMBOLIC non-decreasing timestamps in 1..3 (traced). Full state (pure ingestion) + verdicts compared; finalize twice",
            targets=["semantiva/trace/aggregation/aggregator.py:TraceAggregator.ingest", "semantiva/trace/aggregation/aggregator.py:TraceAggregator.finalize_run", "semantiva/trace/aggregation/aggregator.py:TraceAggregator.finalize_launch", "semantiva/trace/aggregation/aggregator.py:TraceAggregator.finalize_all"]),
         Ob("C13.O3", _make_o3, _replay_o3, params=[("run", 1), ("run", 2), ("run", 3), ("launch",)], budget=300,
            bound="traces written by the real runtime (JSONL driver): runs of 1..3 nodes failing at a symbolic node or not; a 2-run launch through the real CLI with the second run failing or not; prefix length symbolic over every cut point",
